@@ -355,7 +355,33 @@ class BadRepr:
         return "<not an expression>"
 
 
-CONSTANTS = [*KEYS, b"a\nb", b"'\"", bytearray(b"\n"), "a\\nb", "tail\\", 0, True, None, 1.5, float("inf"), 1j, Color.RED, BadRepr(),
+class SubStr(str):
+    __slots__ = ()
+
+
+class SubInt(int):
+    pass
+
+
+class CodeStr(str):
+    __slots__ = ()
+
+    def __repr__(self):
+        return "__canary__()"
+
+
+class CodeInt(int):
+    def __repr__(self):
+        return "__canary__()"
+
+
+class BadBytes(bytes):
+    def __repr__(self):
+        return "<not an expression>"
+
+
+SUBCLASSED = [SubStr("a"), SubInt(1), CodeStr("x"), CodeInt(3), BadBytes(b"x")]
+CONSTANTS = [*SUBCLASSED, *KEYS, b"a\nb", b"'\"", bytearray(b"\n"), "a\\nb", "tail\\", 0, True, None, 1.5, float("inf"), 1j, Color.RED, BadRepr(),
              CodeRepr(), [1], (1,), ("a\nb",), {"k": "a\nb"}, frozenset({1}), object, len, ..., NotImplemented, range(3), b""]
 # names the generators build themselves: closure names, numbered constants, the g_ prefix of captured globals
 DERIVED_NAMES = ["D", "S", "DI", "SI", "g_D", "g_S", "g_DI", "coerce_S_to_D", "coerce_SI_to_DI", "constant_0", "constant_1", "func_0",
@@ -411,6 +437,16 @@ def leg_converter(items, report):
                 out = conv(src(1))
                 ok = (out.a == 1 and (out.extra is value or (type(out.extra) is type(value) and out.extra == value))
                       and inspect.signature(conv) == inspect.signature(stub))
+            elif kind == "model_default":
+                try:
+                    cls = dataclasses.make_dataclass("M", [("a", int), ("b", Any, dataclasses.field(default=value))])
+                except ValueError:
+                    report.skip("dataclasses refuses the mutable default")
+                    continue
+                same = lambda got: got is value or (type(got) is type(value) and got == value)  # noqa: E731
+                ok = True
+                for r in [*retorts([]).values(), *retorts([name_mapping(cls, omit_default=True)]).values()]:
+                    ok = ok and same(r.load({"a": 1}, cls).b) and r.dump(cls(1))["a"] == 1
             elif kind == "link_constant":
                 inner_s = dataclasses.make_dataclass("SI", [("n", int)])
                 inner_d = dataclasses.make_dataclass("DI", [("n", int), ("k", Any)])
@@ -500,7 +536,8 @@ def run(tier):
     conv_items += [("field_pair", (x, p + x)) for x in ids[:40] for p in ("f_", "r_", "v_", "coercer_", "src_") if (p + x).isidentifier()]
     conv_items += [("function_name", x) for x in ids]     # keywords are not legal function names and are left out
     conv_items += [("param_name", x) for x in ids if x not in ("s", "self")]
-    conv_items += [("stub_default", v) for v in (0, "x", None, 1.5, Color.RED, BadRepr(), CodeRepr(), [1], (1,), object, len)]
+    conv_items += [("stub_default", v) for v in (0, "x", None, 1.5, Color.RED, BadRepr(), CodeRepr(), [1], (1,), object, len, *SUBCLASSED)]
+    conv_items += [("model_default", v) for v in CONSTANTS]
     conv_items += [("link_constant", v) for v in CONSTANTS]
     conv_items += [("link_function_name", x) for x in ids + DERIVED_NAMES + CLASS_NAMES]
     conv_items += [("model_name", (w, x)) for w in ("dst", "src", "both") for x in ids + DERIVED_NAMES + CLASS_NAMES]
